@@ -260,6 +260,7 @@ class GraphStream(TripleStream):
         graph_start = jelly.RdfGraphStart()
         self.encoder.start_row()
         [*graph_rows] = self.encoder.encode_graph(graph_id, graph_start)
+        self.encoder.end_row()
         start_row = jelly.RdfStreamRow(graph_start=graph_start)
         graph_rows.append(start_row)
         self.flow.extend(graph_rows)
